@@ -66,6 +66,29 @@ MAKERS = {
 NON_EXCEPTION = ('KeyboardInterrupt', 'SystemExit', 'GeneratorExit')
 
 
+class GetattrKeyError:
+    """A mapping-backed proxy: unknown attributes raise KeyError, not AttributeError."""
+
+    def __getattr__(self, name):
+        raise KeyError(name)
+
+
+class ReprRaises:
+    def __repr__(self):
+        raise RuntimeError('no repr')
+
+
+class GetattrRuntimeError:
+    def __getattr__(self, name):
+        raise RuntimeError(name)
+
+
+def hostile_context():
+    # objects that merely sit in the variable context while something else fails
+    return {'ctx_proxy': GetattrKeyError(), 'ctx_norepr': ReprRaises(), 'ctx_rt': GetattrRuntimeError(), 'ctx_big': 'x' * 3000,
+            'ctx_bytes': b'\xff\xfe', 'ctx_none': None}
+
+
 def line_col(src, off):
     return src.count('\n', 0, off) + 1, off - (src.rfind('\n', 0, off) + 1)
 
@@ -173,7 +196,7 @@ def layer_string_templates(ctx, n):
                 ctx.case(key=('string', g.sites[rid], clsname, bool(lead), c01.stmt_shape(root)), nontrivial=True,
                          sample={'source': src, 'failing': needle, 'class': clsname} if i < 1 and b == 0 else None)
                 try:
-                    out = t(f=f)
+                    out = t(f=f, **hostile_context())
                     ctx.violation('failure-swallowed', what + ': render returned %r' % out[:80], replay)
                 except BaseException as e:       # noqa: the monitor must see everything
                     check_exception(ctx, e, clsname, want, what, replay)
@@ -190,6 +213,38 @@ def chain_files(rng):
     outer = ('<html tal:define="mid load: mid.pt">%s<body>%s<x metal:use-macro="mid" />%s${f(6)}%s</body></html>'
              % (ws(), ws(), ws(), ws()))
     return {'inner.pt': inner, 'mid.pt': mid, 'outer.pt': outer}
+
+
+def layer_inplace_macro(ctx, n):
+    """A metal:define-macro element rendered where it stands: a failure inside it names that expression only."""
+    from chameleon import PageTemplate
+    rng = ctx.rng
+    for i in range(n):
+        before = rng.choice(['', '<h1>${f(1)}</h1>', '<p tal:content="f(1)">x</p>', '\n ${f(1)}\n'])
+        inside = rng.choice(['${f(2)}', '<b tal:content="f(2)">x</b>', '<i tal:condition="f(2)">y</i>', 'x\n  ${f(2)}'])
+        after = rng.choice(['', '${f(3)}'])
+        nested = rng.random() < .4
+        body = '<div metal:define-macro="m">%s</div>' % inside
+        if nested:
+            body = '<section tal:define="q f(4)">%s</section>' % body
+        src = '<html>%s%s%s</html>' % (before, body, after)
+        fail = rng.choice([2, 2, 3]) if after else 2
+        clsname = rng.choice(['KeyError', 'ValueError', 'TwoArgs', 'ZeroDivisionError'])
+
+        def f(x, fail=fail, clsname=clsname):
+            if x == fail:
+                raise MAKERS[clsname]()
+            return 'v%d' % x
+        needle = 'f(%d)' % fail
+        want = [(needle, '<string>') + line_col(src, src.index(needle))]
+        what = 'template %r, %s raised by %s (in-place macro)' % (src, clsname, needle)
+        replay = {'kind': 'inplace', 'src': src, 'fail': fail, 'cls': clsname}
+        ctx.case(key=('inplace', bool(before), inside[:6], fail, nested, clsname), nontrivial=True)
+        try:
+            out = PageTemplate(src)(f=f)
+            ctx.violation('failure-swallowed', what + ': render returned %r' % out[:80], replay)
+        except BaseException as e:   # noqa
+            check_exception(ctx, e, clsname, want, what, replay)
 
 
 def layer_file_chain(ctx, n):
@@ -242,6 +297,7 @@ def run(ctx):
     monitors.install(ctx, tokalg=False)
     layer_string_templates(ctx, 60 if ctx.quick else 1000)
     layer_file_chain(ctx, 12 if ctx.quick else 200)
+    layer_inplace_macro(ctx, 25 if ctx.quick else 400)
 
 
 def replay(data):
